@@ -13,7 +13,7 @@ import SaModel.Props.C01Refine
 /-
 C03 — every produced array is a well-formed Arrow array of the declared field.
 
-  C03_wf                 toMarrow ext fields rows = ok arrs → one array per field, each `Spec.WFS` for its field and of
+  C03_wfS                 toMarrow ext fields rows = ok arrs → one array per field, each `Spec.WFS` for its field and of
                          `rows.length` rows (explicit assumptions on schema / rows / Ext: see the section header there)
   toMarrow_decode_state  the arrays decode to exactly the columns the final builder state holds (every family)
   (… which are the documented rows `interpRow` of the records: `Props.C01.C01_build_decode`, Props/C01.lean)
@@ -325,7 +325,7 @@ theorem toMarrow_split (ext : Ext) (fields : List Field) (rows : List SVal) (arr
         cases h
         exact ⟨rest, rfl⟩
 
-/-- **C03 from facts about the final builder state** (lemma; the assembled theorem is `C03_wf` below): given the
+/-- **C03 from facts about the final builder state** (lemma; the assembled theorem is `C03_wfS` below): given the
 state invariant `WFB root`, the shape relation `BuiltFor (struct fields) false root`, `Sound root` and `WFX root`,
 every array `to_marrow` returns is a well-formed array of its field, there is one array per field, and all arrays have
 the same number of rows. -/
@@ -504,7 +504,7 @@ field's including child names / nullability / metadata / parameters; bitmap pres
 bytes and clear padding; offsets start at 0, never decrease, end at the child length and stay within i32/i64; fixed-size
 child lengths; type ids, dense offsets and dictionary keys in range; string data valid UTF-8; values within their
 physical range), there is exactly one array per field, and every array has `rows.length` rows. -/
-theorem C03_wf (ext : Ext) (fields : List Field) (rows : List SVal) (arrs : List Arr)
+theorem C03_wfS (ext : Ext) (fields : List Field) (rows : List SVal) (arrs : List Arr)
     (hschema : ∀ f ∈ fields, Lemmas.C03.SchemaOKF f)
     (hsafe : ∀ root0, newRoot fields = .ok root0 → Safe root0)
     (hext : Lemmas.C03.ExtOK ext)
@@ -603,7 +603,7 @@ theorem All2_get {α β} {R : α → β → Prop} : ∀ {l1 : List α} {l2 : Lis
 /-! ### a worked instance: the hypotheses are jointly satisfiable on a real run
 
 Two records for the schema `{a: Int32?, l: List<Int8>}` (second record without `a`).  The model run is evaluated by
-`decide` (`exRun`), `to_marrow` succeeds (`exOk`), and every hypothesis of `C03_wf` is discharged: an unconditional instance. -/
+`decide` (`exRun`), `to_marrow` succeeds (`exOk`), and every hypothesis of `C03_wfS` is discharged: an unconditional instance. -/
 
 def exFields : List Field := [.mk "a" .int32 true [], .mk "l" (.list (.mk "element" .int8 false [])) false []]
 def exRows : List SVal :=
@@ -629,12 +629,12 @@ theorem exOk : (toMarrow {} exFields exRows).isOk = true := by
   rw [toMarrow_eq, exRun]
   simp [exRoot, buildArrays, finishFields, finish, bind, Except.bind, pure, Except.pure, R.isOk]
 
-/-- the instance, with every hypothesis of `C03_wf` discharged: both arrays are well formed and have 2 rows -/
+/-- the instance, with every hypothesis of `C03_wfS` discharged: both arrays are well formed and have 2 rows -/
 example : ∀ arrs, toMarrow {} exFields exRows = .ok arrs →
     arrs.length = exFields.length ∧ ∀ (j : Nat) (f : Field) (a : Arr), exFields[j]? = some f →
       arrs[j]? = some a → WFS f a = true ∧ (decodeAll a).length = exRows.length := by
   intro arrs h
-  refine C03_wf {} exFields exRows arrs ?_ ?_ ?_ ?_ h
+  refine C03_wfS {} exFields exRows arrs ?_ ?_ ?_ ?_ h
   · simp [exFields, Lemmas.C03.SchemaOKF, Lemmas.C03.SchemaOK]
   · intro root0 h0
     rw [show newRoot exFields = .ok (.struct "$" 0 none
@@ -647,7 +647,7 @@ example : ∀ arrs, toMarrow {} exFields exRows = .ok arrs →
   · simp [exRows, Lemmas.C03.SValOK, Lemmas.C03.SFieldsOK, Lemmas.C03.SValsOK, Lemmas.C03.ScalarOK, IntTy.inRange,
       IntTy.min, IntTy.max]
 
-/-! `C03_wf` without `rawOK`: rows may carry raw key/value call streams.  Into a Map column the stream that does not
+/-! `C03_wfS` without `rawOK`: rows may carry raw key/value call streams.  Into a Map column the stream that does not
 alternate is refused (`Props.C01.map_refuses_non_alternating`) — `to_marrow` is an error, there is no array to speak
 about; the alternating one is accepted and the Map array is well formed with one row. -/
 example : (toMarrow {} Props.C01.exMapFields
